@@ -946,6 +946,9 @@ pub fn suite_cliwrites(dir: &str, seed: u64, thorough: bool, st: &mut Stats) {
             c.src = v;
         }
         let compressible = i % 2 == 1;
+        // fixed-size chunks: often a source that is a whole number of chunks, so that an old output which starts with
+        // the source (kinds 1 and 2 below) holds every chunk in place, the last one included
+        if c.cfg.algo == 'F' && c.src.len() >= c.cfg.max as usize && rng.chance(1, 2) { let keep = c.src.len() / c.cfg.max as usize * c.cfg.max as usize; c.src.truncate(keep); }
         let s = Scn::new("cw", i as u64);
         s.write("src.bin", &c.src);
         let mut args: Vec<String> = vec!["compress".into(), "-i".into(), "src.bin".into()];
@@ -1098,6 +1101,37 @@ pub fn suite_clifault(dir: &str, seed: u64, thorough: bool, st: &mut Stats) {
             st.violation("C05", &format!("re-run after an interrupted clone ({}) did not reproduce the source (exit {}): {}", mode, code2, log2.lines().last().unwrap_or("")), &line);
         }
         lines.push((format!("outfile {}", if code1 == 0 && !wrote_ok { "LOST" } else { "REPORTED" }), "outfile REPORTED".to_string()));
+    }, st, &mut out);
+    // interrupted between the last write and the final resize: every chunk of the source is in place, the old output's
+    // tail is still there (the boundary at the source's end is reproduced by the scan: fixed-size chunks, source a
+    // multiple of the chunk size). The re-run has nothing to write and must still leave exactly the source.
+    par_for(if thorough { 24 } else { 6 }, 6, |i, st, _lines| {
+        let mut rng = Rng::new(seed ^ 0x97 ^ ((i as u64) << 20));
+        let s = Scn::new("fz", i as u64);
+        let cs = *rng.pick(&[512usize, 1024, 4096]);
+        let k = rng.range(1, 12) as usize;
+        let src = gen_data(&mut rng, k * cs).0;
+        s.write("src.bin", &src);
+        let csa = format!("{}", cs);
+        let (code, _) = s.bita(&["compress", "-i", "src.bin", "--fixed-size", &csa, "a.cba"], None, &[]);
+        if code != 0 { return; }
+        let mut state = src.clone();
+        for _ in 0..rng.range(1, 3 * cs as u64 + 7) { state.push(rng.next() as u8); }
+        s.write("out.bin", &state);
+        let verify = i % 2 == 1;
+        let mut args: Vec<&str> = vec!["clone", "--seed-output", "--force-create"];
+        if verify { args.push("--verify-output"); }
+        args.extend(["a.cba", "out.bin"]);
+        let (code2, log2) = s.bita(&args, None, &[]);
+        let after = s.read("out.bin").unwrap_or_default();
+        st.evaluations += 1;
+        st.oracle_checks += 1;
+        st.count("clifault/all-in-place-but-too-long");
+        let line = format!("clifault all-in-place fixed={} chunks={} tail={}B verify={}", cs, k, state.len() - src.len(), verify);
+        if code2 != 0 || after != src {
+            st.violation("C05", &format!("re-run on an output that holds every chunk in place followed by the old tail (interrupted before the resize) leaves {} bytes, source {} (exit {}): {}", after.len(), src.len(), code2, log2.lines().last().unwrap_or("")), &line);
+            if code2 == 0 { st.violation("C03", "in-place clone onto an output that starts with the source and is longer does not leave exactly the source", &line); }
+        }
     }, st, &mut out);
     // the case lines of this suite are informational (both columns written by the harness): no model file
     let _ = &mut out;
